@@ -81,7 +81,19 @@ fn index_ok(v: &Value) -> bool {
 /// `cn` canonicalize in between.  A value's canonical form may not depend on its history.
 fn apply_edit(o: &mut Object, op: &str) {
     let p: Vec<&str> = op.split(':').collect();
-    let num = |h: &str| Value::Number(json_syntax::NumberBuf::new(parse_hex_string(h).into_bytes().into()).unwrap());
+    // a number spelling, or `o<number spelling>`: the unsorted object {"z": n, "a": [n]} holding it twice
+    let num = |h: &str| {
+        let n = |h: &str| Value::Number(json_syntax::NumberBuf::new(parse_hex_string(h).into_bytes().into()).unwrap());
+        match h.strip_prefix('o') {
+            Some(h) => {
+                let mut inner = Object::new();
+                inner.push("z".into(), n(h));
+                inner.push("a".into(), Value::Array(vec![n(h)]));
+                Value::Object(inner)
+            }
+            None => n(h),
+        }
+    };
     match p[0] {
         "pf" => {
             o.push_front(parse_hex_string(p[1]).as_str().into(), num(p[2]));
@@ -128,7 +140,7 @@ fn eval_ke(line: &str) -> String {
             match p[0] {
                 "pf" | "pb" | "in" | "if" => {
                     assert!(p.len() == 3);
-                    assert!(json_syntax::NumberBuf::new(parse_hex_string(p[2]).into_bytes().into()).is_ok());
+                    assert!(json_syntax::NumberBuf::new(parse_hex_string(p[2].strip_prefix('o').unwrap_or(p[2])).into_bytes().into()).is_ok());
                 }
                 "rm" => assert!(p.len() == 2),
                 "ra" => assert!(p.len() == 2 && p[1].parse::<usize>().is_ok()),
@@ -569,14 +581,15 @@ fn gen_histories(out: &mut Out, rng: &mut Rng, n: usize) {
             let op = match r.below(10) {
                 0 | 1 | 2 => {
                     len += 1;
-                    format!("pf:{}:{}", newkey(&mut fresh, &mut r), hex_str("7"))
+                    format!("pf:{}:{}{}", newkey(&mut fresh, &mut r), if r.chance(1, 4) { "o" } else { "" }, hex_str(*r.pick(&["7", "7.0", "70e-1"])))
                 }
                 3 | 4 => {
                     len += 1;
                     format!("pb:{}:{}", newkey(&mut fresh, &mut r), hex_str("1e1"))
                 }
                 5 => match &existing {
-                    Some(k) => format!("in:{}:{}", k, hex_str("0.5")),
+                    // replacing the value of an existing key by one that is not in canonical form
+                    Some(k) => format!("in:{}:{}{}", k, if r.chance(1, 3) { "o" } else { "" }, hex_str(*r.pick(&["0.5", "1.0E2", "0.50", "1e1", "-0.0", "100"]))),
                     None => "st".into(),
                 },
                 6 => {
